@@ -1245,7 +1245,8 @@ _BASIC_CONVERTERS: t.Dict[type, Converter[t.Any]] = {
     bool: ScalarConverter(bool, bool, 'a bool', 'bools', bool),
     # (written as the text itself: subclasses may print differently, as members of ``(str, Enum)`` classes do)
     str: ScalarConverter(str, str, 'a string', 'strings', lambda v: str.__str__(v) if isinstance(v, str) else str(v)),
-    bytes: ScalarConverter(bytes, (bytes, bytearray), 'a bytestring', 'bytestrings'),
+    # (written as plain `bytes`: a subclass instance, like a `numpy.bytes_`, isn't a data interchange value every writer knows)
+    bytes: ScalarConverter(bytes, (bytes, bytearray), 'a bytestring', 'bytestrings', bytes),
     bytearray: ScalarConverter(bytearray, (bytes, bytearray), 'a bytearray', 'bytearrays', bytes),
     type(None): NoneConverter(),
     datetime.datetime: DatetimeConverter(datetime.datetime),
